@@ -134,14 +134,16 @@ def run(ctx, rep):
         idl = flow.backward_slice(b, op_place(b.term(call_bb)["args"][1]))["locals"] if op_place(b.term(call_bb)["args"][1]) else set()
         # ignore the receiver/self roots: intersect on locals that are not arguments
         common = {l for l in (ida & idl) if l > b.argc}
-        ok = (not took_true) and pt == kind and bool(common)
         # must-pass form: every path to the add has seen this lookup answer `false`
         ev = only_via(b, bb, lambda x: x[0] == "call" and bool(HAS.search(x[1])) and len(x) > 3 and x[3] == e[3], False)
+        # polarity comes from the must-pass form (inside a loop the add is also control dependent on the lookup of an earlier
+        # iteration having answered `true`)
+        ok = ev and pt == kind and bool(common)
         rep.check("C07.b", f"add/{k}/every-path", ev, where=where(b, bb), what=f"{k}: every path that adds the blob has seen the index lookup answer `not present`" if ev else
                   f"{k}: the blob can be added on a path where the index lookup did not answer `not present` (weakened guard): known blobs are stored again")
         rep.check("C07.b", f"add/{k}", ok, where=where(b, bb),
                   what=f"{k}: added to the {pt} packer only if index.has_{kind.lower()}(same id) is false" if ok else
-                       f"{k}: packer type {pt}, lookup has_{kind.lower()} taken {'true' if took_true else 'false'} edge, same id: {bool(common)} - the lookup does not decide this add correctly")
+                       f"{k}: packer type {pt}, lookup has_{kind.lower()} answered `not present` on every path: {ev}, same id: {bool(common)} - the lookup does not decide this add correctly")
         # ---- C07.c: id = hash(data)
         # must-derive: EVERY origin of the id is hash(..) / Tree::serialize() (no second, cheaper source on some path)
         orig = flow.origins(b, op_place(t["args"][2])) if op_place(t["args"][2]) else []
